@@ -247,3 +247,30 @@ def _(v):
         v.prove("molar_mass_in_grams_per_mole", close(float(to_unitless(mm, u.gram / u.mol)), M("H2O")) and close(float(to_unitless(Substance.from_formula("H2O").molar_mass(u), u.kg / u.mol)), M("H2O") / 1000))
     except ImportError:
         pass
+
+
+@harness("C14", "mass_fractions.any_mapping", functions=["chempy.chemistry:mass_fractions"], kind="data")
+def _(v):
+    """'mass fractions of any mixture are … proportional to coefficient times mass': the coefficients are honoured for every kind of mapping
+    (dict, OrderedDict, defaultdict, read-only proxy, UserDict), only a set of keys means unit coefficients"""
+    from collections import OrderedDict, defaultdict, UserDict
+    from types import MappingProxyType
+    from chempy.chemistry import mass_fractions, Substance
+    d = {"H2O": 3, "NaCl": 1, "C2H5OH": 0.5}
+    m = {k: Substance.from_formula(k).mass for k in d}
+    tot = sum(d[k] * m[k] for k in d)
+    want = {k: d[k] * m[k] / tot for k in d}
+    dd = defaultdict(int)
+    dd.update(d)
+    bad = []
+    for label, arg in (("dict", dict(d)), ("OrderedDict", OrderedDict(d)), ("defaultdict", dd), ("MappingProxyType", MappingProxyType(dict(d))), ("UserDict", UserDict(d))):
+        try:
+            got = mass_fractions(arg)
+            if set(got) != set(want) or any(abs(got[k] - want[k]) > 1e-14 for k in want):
+                bad.append((label, dict(got)))
+        except Exception as ex:
+            bad.append((label, repr(ex)[:80]))
+    v.prove("coefficients_honoured_for_every_mapping", not bad, detail=repr(bad[:2]))
+    tot1 = sum(m.values())
+    got = mass_fractions(set(d))
+    v.prove("set_of_keys_means_unit_coefficients", all(abs(got[k] - m[k] / tot1) < 1e-14 for k in d))
